@@ -282,7 +282,19 @@ func c19Run(c *Ctx, gen string, idx int, k c19Case) bool {
 		}
 	default:
 		for _, rq := range reqs {
-			mc.SendLine(":srv CAP * ACK :" + strings.Join(rq, " "))
+			// the server may list the acknowledged capabilities in any order
+			ack := append([]string(nil), rq...)
+			switch idx % 3 {
+			case 1:
+				for i, j := 0, len(ack)-1; i < j; i, j = i+1, j-1 {
+					ack[i], ack[j] = ack[j], ack[i]
+				}
+			case 2:
+				if len(ack) > 1 {
+					ack = append(ack[1:], ack[0])
+				}
+			}
+			mc.SendLine(":srv CAP * ACK :" + strings.Join(ack, " "))
 			for _, x := range rq {
 				has[x] = true
 				if x == "sasl" && sc != nil {
@@ -296,6 +308,9 @@ func c19Run(c *Ctx, gen string, idx int, k c19Case) bool {
 	}
 	_, ends, auth, _ = capLines()
 	if saslStarted {
+		if len(reqs) == 1 && ends != 0 {
+			viol("end-before-sasl-outcome", "CAP END was sent although the acknowledgement started SASL authentication and no outcome has arrived yet")
+		}
 		if len(auth) != 1 || auth[0] != mech {
 			viol("mechanism-line", fmt.Sprintf("after ACK of sasl the client sent AUTHENTICATE %v, want exactly [%s] (credentials only after the server's '+')", auth, mech))
 		}
